@@ -33,6 +33,10 @@ func init() {
 			switch tier {
 			case "thorough":
 				return 4800
+			case "cold":
+				return 44
+			case "cold-thorough":
+				return 660
 			}
 			return 240
 		},
@@ -97,6 +101,15 @@ func c17Trial(c *Ctx) {
 	var spec *modelSpec
 	var desc string
 	kind := c.Idx % 20
+	// cold-start trials (tier "cold*": one trial per fresh worker process): the concurrent
+	// Runs are the first thing the library does in the process - whatever it initialises on
+	// first use (tables, caches, pools) is initialised by Runs that overlap
+	cold := strings.HasPrefix(c.Tier, "cold") && !c.coldDone
+	c.coldDone = true
+	if cold {
+		kind = []int{0, 5, 6, 7, 8, 9, 10, 11, 12, 14, 15}[c.Idx%11]
+		c.Count("cold-start-trials", 1)
+	}
 	switch {
 	case kind < 4:
 		specs := sampleModels()
@@ -268,15 +281,10 @@ func c17Trial(c *Ctx) {
 	loaders := r.PickInt(0, 1, 1, 2)
 	c.SetCase("model %s | %d goroutines x %d runs | GOMAXPROCS %d | proxy-yields %v | loaders %d | some Runs with a misshapen input %v", trunc(desc, 600), G, R, procs, useProxy, loaders, misshape)
 
-	// sequential baseline on a fresh model
+	// the inputs of every Run (drawn before anything of the library runs)
 	feeds := make([][]map[string]*ref.T, G)
 	base := make([][]gonnx.Tensors, G)
 	baseErr := make([][]error, G)
-	bm, err := gonnx.NewModelFromBytes(spec.Bytes)
-	if err != nil {
-		c.Violation("concurrent:model-does-not-load", "%v", err)
-		return
-	}
 	for g := 0; g < G; g++ {
 		feeds[g] = make([]map[string]*ref.T, R)
 		base[g] = make([]gonnx.Tensors, R)
@@ -298,29 +306,46 @@ func c17Trial(c *Ctx) {
 					feeds[g][j][k] = variantOf(r, feeds[g][j][k], r.Bool())
 				}
 			}
-			in := gonnx.Tensors{}
-			for k, v := range feeds[g][j] {
-				in[k] = mon.ToTensor(v)
-			}
-			o := mon.Capture(nil, func() ([]tensor.Tensor, error) {
-				var err error
-				one := bm
-				if !spec.Heavy { // "what it returns when executed alone": a freshly loaded model per Run
-					if one, err = gonnx.NewModelFromBytes(spec.Bytes); err != nil {
-						return nil, err
-					}
-				}
-				base[g][j], err = one.Run(in)
-				return nil, err
-			})
-			if o.Kind == mon.Panic {
-				c.Violation("concurrent:panic", "sequential baseline: %s", o.Describe())
-				return
-			}
-			baseErr[g][j] = o.Err
 		}
 	}
-	c.Eval(G * R)
+	// sequential baseline on fresh models: before the concurrent phase - or, in a cold-start
+	// trial (the first Runs of the process are the concurrent ones), after it
+	baseline := func() bool {
+		bm, err := gonnx.NewModelFromBytes(spec.Bytes)
+		if err != nil {
+			c.Violation("concurrent:model-does-not-load", "%v", err)
+			return false
+		}
+		for g := 0; g < G; g++ {
+			for j := 0; j < R; j++ {
+				in := gonnx.Tensors{}
+				for k, v := range feeds[g][j] {
+					in[k] = mon.ToTensor(v)
+				}
+				o := mon.Capture(nil, func() ([]tensor.Tensor, error) {
+					var err error
+					one := bm
+					if !spec.Heavy { // "what it returns when executed alone": a freshly loaded model per Run
+						if one, err = gonnx.NewModelFromBytes(spec.Bytes); err != nil {
+							return nil, err
+						}
+					}
+					base[g][j], err = one.Run(in)
+					return nil, err
+				})
+				if o.Kind == mon.Panic {
+					c.Violation("concurrent:panic", "sequential baseline: %s", o.Describe())
+					return false
+				}
+				baseErr[g][j] = o.Err
+			}
+		}
+		c.Eval(G * R)
+		return true
+	}
+	if !cold && !baseline() {
+		return
+	}
 
 	// the shared model
 	m, err := gonnx.NewModelFromBytes(spec.Bytes)
@@ -359,6 +384,11 @@ func c17Trial(c *Ctx) {
 	}
 	type stamp struct{ start, end int64 }
 	stamps := make([][]stamp, G)
+	got := make([][]gonnx.Tensors, G)
+	gotOutcome := make([][]mon.Outcome, G)
+	for g := range got {
+		got[g], gotOutcome[g] = make([]gonnx.Tensors, R), make([]mon.Outcome, R)
+	}
 	type failure struct {
 		g, j int
 		what string
@@ -387,22 +417,7 @@ func c17Trial(c *Ctx) {
 					return nil, err
 				})
 				stamps[g][j].end = atomic.AddInt64(&c17Clock, 1)
-				what := ""
-				switch {
-				case o.Kind == mon.Panic:
-					what = "panic: " + o.Describe()
-				case (o.Err != nil) != (baseErr[g][j] != nil):
-					what = fmt.Sprintf("concurrent outcome %v, sequential outcome %v", o.Err, baseErr[g][j])
-				case o.Err != nil && o.Err.Error() != baseErr[g][j].Error():
-					what = fmt.Sprintf("concurrent error text %q, sequential error text %q", o.Err.Error(), baseErr[g][j].Error())
-				case o.Err == nil:
-					what = diffResults(out, base[g][j])
-				}
-				if what != "" {
-					failMu.Lock()
-					fails = append(fails, failure{g, j, what})
-					failMu.Unlock()
-				}
+				got[g][j], gotOutcome[g][j] = out, o
 			}
 		}(g)
 	}
@@ -433,6 +448,28 @@ func c17Trial(c *Ctx) {
 	wg.Wait()
 	atomic.StoreInt32(&done, 1)
 	lwg.Wait()
+	if cold && !baseline() {
+		return
+	}
+	for g := 0; g < G; g++ {
+		for j := 0; j < R; j++ {
+			o, out := gotOutcome[g][j], got[g][j]
+			what := ""
+			switch {
+			case o.Kind == mon.Panic:
+				what = "panic: " + o.Describe()
+			case (o.Err != nil) != (baseErr[g][j] != nil):
+				what = fmt.Sprintf("concurrent outcome %v, sequential outcome %v", o.Err, baseErr[g][j])
+			case o.Err != nil && o.Err.Error() != baseErr[g][j].Error():
+				what = fmt.Sprintf("concurrent error text %q, sequential error text %q", o.Err.Error(), baseErr[g][j].Error())
+			case o.Err == nil:
+				what = diffResults(out, base[g][j])
+			}
+			if what != "" {
+				fails = append(fails, failure{g, j, what})
+			}
+		}
+	}
 	c.Eval(G * R)
 	c.Count("runs", int64(G*R))
 	for g := range baseErr {
